@@ -24,8 +24,8 @@ import (
 )
 
 func init() {
-	register(&Suite{Name: "hs-server", Gen: genHsServer, Exec: execHsServer})
-	register(&Suite{Name: "hs-client", Gen: genHsClient, Exec: execHsClient})
+	register(&Suite{Name: "hs-server", Gen: genHsServer, Exec: execHsServer, Isolated: true})
+	register(&Suite{Name: "hs-client", Gen: genHsClient, Exec: execHsClient, Isolated: true})
 }
 
 // ---- header maps on the case line ---------------------------------------------------------------
